@@ -387,7 +387,7 @@ def _result(spec):
             f = t.aggregate if op == "aggregate" else t.window
             r = rng.choice(f(over="k", sum_over="x", mean_over="x", max_over="x", count_over="x").cols())
         elif op == "csv":
-            cells = ["", "1", "2.5", "x", " 7 "]
+            cells = ["", "1", "2.5", "x", " 7 ", " ", "\t", "  "]       # blank cells of every spelling are None
             rows = [[rng.choice(cells) for _ in range(rng.choice([2, 2, 1, 3]))] for _ in a]     # jagged records too
             text = "p,q\n" + "\n".join(",".join(r) for r in rows) + "\n"
             t = read_csv(io.StringIO(text))
